@@ -152,6 +152,7 @@ const smtHeader = `(set-option :produce-models true)
 (declare-fun goquot (Int Int) Int)
 (declare-fun at (Int Int) Int)
 (assert (forall ((o Int) (k Int)) (! (= (at o k) (+ o k)) :pattern ((at o k)))))
+(assert (forall ((o Int) (a Int) (k Int)) (! (= (at (at o a) k) (at o (+ a k))) :pattern ((at (at o a) k)))))
 (assert (forall ((s Str)) (! (>= (strlen s) 0) :pattern ((strlen s)))))
 `
 
